@@ -124,7 +124,8 @@ PROPS = {
                       "^x- extensions are decodable AND encodable for each of the 13 kinds (coverage), every listed kind carries extensions both "
                       "ways, decoded parts = encoded parts, the hand-transcribed codecs still have the transcribed part structure. UNBOUNDED, for the free-form "
                       "positions (Codec/PayloadFacts.v): a payload in normal form (member names strictly increasing at every level) comes back with its exact "
-                      "value whatever its size and nesting, and every payload the codec emits is in that normal form. The full "
+                      "value whatever its size and nesting, and every payload the codec emits is in that normal form; a value in normal form for a field type built from "
+                      "string/bool/float64/int64/interface{}/StringOrArray by slices and string-keyed maps (Codec/TypedFacts.v; 89 of the 201 encoded fields) comes back exactly as it was. The full "
                       "round-trip statement for the typed kinds is kept as C01_statement and is NOT proved generically; it is checked by the differential run and the oracle.",
         "level_note": "Partial: table-level obligations are proofs (vm_compute over generated tables, closed under the global context); the semantic round trip "
                       "for all documents is tied by the differential run (norm model vs Go, 0 mismatches required) — see DESIGN.md sections 4 and 9.",
